@@ -76,9 +76,16 @@ pub fn private_key(d: &BigUint) -> Sm2PrivateKey {
 /// a key object holding d and the given public-key object: built by the constructor for d = 1 and then overwritten
 /// through the public fields, so that a private field added to the struct does not stop the harness from building
 pub fn private_key_with(d: &BigUint, pk: Sm2PublicKey) -> Sm2PrivateKey {
-    let mut one = [0u8; 32];
-    one[31] = 1;
-    let mut sk = Sm2PrivateKey::new(&one).expect("d = 1 is a valid private key");
+    // any valid key will do as the shell (a build that wrongly refuses one boundary key must still be checkable)
+    let mut sk = [1u8, 2, 3, 0x5a]
+        .iter()
+        .find_map(|b| {
+            let mut bytes = [0u8; 32];
+            bytes[31] = *b;
+            bytes[7] = if *b == 0x5a { 0x5a } else { 0 };
+            Sm2PrivateKey::new(&bytes).ok()
+        })
+        .expect("the constructor accepts none of the private keys 1, 2, 3, 5a..5a");
     sk.d = to_limbs(d);
     sk.public_key = pk;
     sk
